@@ -442,6 +442,12 @@ func bombQuery(family string, d int) string {
 			fmt.Fprintf(&sb, "fragment G%d on Obj { child { ...G%d } c2: child { ...G%d } }\n", i, i+1, i+1)
 		}
 		fmt.Fprintf(&sb, "fragment G%d on Obj { x }\n", d)
+	case "unionbomb": // the doubling sits in two member fragments of a union-typed field
+		sb.WriteString("{ obj { ...H0 } }\n")
+		for i := 0; i < d; i++ {
+			fmt.Fprintf(&sb, "fragment H%d on Obj { uu { ... on Obj { ...H%d } ... on Obj { ...H%d } } }\n", i, i+1, i+1)
+		}
+		fmt.Fprintf(&sb, "fragment H%d on Obj { x }\n", d)
 	case "chain": // control: linear
 		sb.WriteString("{ ...F0 }\n")
 		for i := 0; i < d; i++ {
@@ -461,7 +467,7 @@ func bombQuery(family string, d int) string {
 	return sb.String()
 }
 
-var bombFamilies = []string{"sibling2", "sibling3", "mixed", "nestfield", "chain", "wide", "inline"}
+var bombFamilies = []string{"sibling2", "sibling3", "mixed", "nestfield", "unionbomb", "chain", "wide", "inline"}
 
 // ---- socket scripts ----
 
